@@ -109,6 +109,7 @@ def run_wire(ctx, prop):
             exact = c["elapsed_ms"] < 300
             dist["not_exact_timing"] += not exact
             ops = []
+            sess_bad = None
             for o in c["ops"]:
                 dist["ops"] += 1
                 dist["by_protocol"][o["proto"]] += 1
@@ -123,6 +124,22 @@ def run_wire(ctx, prop):
                     if c.get("witness") == "F8" and len(c["ops"]) == 2 and c["ops"][1]["wire"].get("reset", 0) > 2147483647:
                         ctx.known_witness_reproduced = True
                 ops.append("(%s, %s)" % (wreq_term(o["sent"]), wobs_term(w)))
+                # implementation-side oracle straight from the property: the wire answer is the LIBRARY's answer for the request that
+                # reaches the limiter (real RateLimiter in the harness, documented defaults, whole seconds), an error iff refused/rejected
+                lib = o.get("lib")
+                if lib is not None and "broken" not in w:
+                    if ("err" in lib) != ("err" in w):
+                        lib_bad = "library says %s, the wire says %s" % (json.dumps(lib)[:120], json.dumps(w)[:120])
+                    elif "err" in lib:
+                        lib_bad = None
+                    else:
+                        keys = ["a", "lim", "rem"] + (["reset", "retry"] if exact else [])
+                        lib_bad = None if all(lib[k] == w[k] for k in keys) else "library answers %s, the wire carries %s" % (json.dumps(lib), json.dumps(w))
+                    if lib_bad and not sess_bad:
+                        sess_bad = "request %d of the session (%s%s): %s" % (len(ops), ["http", "grpc", "resp"][o["proto"]], ", " + o["malformed"] if "malformed" in o else "", lib_bad)
+            if sess_bad:
+                ctx.violations.append({"what": "%s: the wire answer differs from the library's answer for the same request - %s" % (prop, sess_bad),
+                                       "input": {"session": [{"proto": ["http", "grpc", "resp"][o["proto"]], "sent": o["sent"], "wire": o["wire"], "library": o.get("lib")} for o in c["ops"]]}})
             terms.append("(%s, %s)" % (C.coq_bool(exact), C.coq_list(ops)))
             idx.append(n)
         mism, _ = C.coq_mismatches(ctx, "wire_" + prop, HEADER, "wire_case_ok", terms, shard=12)
